@@ -9,7 +9,9 @@ import (
 	"encoding/json"
 	"fmt"
 	"os"
+	"path/filepath"
 	"strconv"
+	"strings"
 	"time"
 
 	"github.com/openGemini/openGemini/app/ts-meta/meta"
@@ -543,6 +545,32 @@ func main() {
 	}
 	for _, c := range corpus() {
 		_ = enc.Encode(c)
+	}
+	// minimised past failures and hand-picked cases kept as files (corpus/C16/*.case, same format as a replay)
+	if dir := os.Getenv("VERIF_CORPUS"); dir != "" {
+		ents, _ := os.ReadDir(dir)
+		for _, e := range ents {
+			if !strings.HasSuffix(e.Name(), ".case") {
+				continue
+			}
+			b, err := os.ReadFile(filepath.Join(dir, e.Name()))
+			if err != nil {
+				continue
+			}
+			var in Case
+			if json.Unmarshal(b, &in) != nil {
+				fmt.Fprintln(os.Stderr, "c16: bad corpus file", e.Name())
+				os.Exit(2)
+			}
+			if in.PtPer == 0 {
+				in.PtPer = 1
+			}
+			w := newWorld("corpus:"+e.Name(), in.Modelled, in.PtPer, in.SClean)
+			for _, c := range in.Cmds {
+				w.exec(c)
+			}
+			_ = enc.Encode(finish(w))
+		}
 	}
 	r := gen.FromEnv(16)
 	for i := 0; i < n; i++ {
